@@ -22,6 +22,8 @@ pub struct StateRec {
     pub op: u16,
     pub root: u32,
     pub depth: u16,
+    /// first state (in BFS order) with its list/table shape
+    pub shape_rep: bool,
 }
 
 #[derive(Clone, Debug)]
@@ -55,6 +57,10 @@ pub struct ExploreOpts {
     /// run the expensive per-state checks (owning-iterator patterns, clone
     /// product) only in states up to this depth
     pub heavy_depth_limit: Option<u16>,
+    /// run the owning-iterator sweep only in the first state of each
+    /// list/table shape (iterators and Drop cannot observe ids, sizes or the
+    /// limit); false = in every state
+    pub owning_by_shape: bool,
 }
 
 pub struct VRecLite {
@@ -102,11 +108,12 @@ pub struct Explorer<'a> {
     pub seen: HashMap<Arc<[u8]>, u32>,
     /// the reference's own state after each root's prefix (history-level rules)
     pub root_ref: Vec<Option<(Vec<crate::refmodel::RE>, usize)>>,
+    pub shapes: std::collections::HashSet<Vec<u8>>,
 }
 
 impl<'a> Explorer<'a> {
     pub fn new(ctx: &'a Ctx<'a>, roots: Vec<Root>, alpha: Vec<Op>) -> Explorer<'a> {
-        Explorer { ctx, roots, alpha, states: vec![], keys: vec![], seen: HashMap::new(), root_ref: vec![] }
+        Explorer { ctx, roots, alpha, states: vec![], keys: vec![], seen: HashMap::new(), root_ref: vec![], shapes: Default::default() }
     }
 
     /// (root, operations after the root's prefix)
@@ -183,7 +190,12 @@ impl<'a> Explorer<'a> {
                 if self.states[id as usize].depth > lim {
                     so.owning = false;
                     so.clone_product = 0;
+                    so.trap = false;
+                    so.borrow_patterns = false;
                 }
+            }
+            if opts.owning_by_shape && !self.states[id as usize].shape_rep {
+                so.owning = false;
             }
             let so = &so;
             let r = check_state(self.ctx, &cfg, &hist, Some(&key), so, &mut out.stats);
@@ -342,7 +354,8 @@ impl<'a> Explorer<'a> {
                     let k: Arc<[u8]> = s.key.into();
                     if !self.seen.contains_key(&k) {
                         let id = self.states.len() as u32;
-                        self.states.push(StateRec { parent: u32::MAX, op: 0, root: ri as u32, depth: 0 });
+                        let rep = self.shapes.insert(crate::state::shape_of(&k));
+                        self.states.push(StateRec { parent: u32::MAX, op: 0, root: ri as u32, depth: 0, shape_rep: rep });
                         self.keys.push(k.clone());
                         self.seen.insert(k, id);
                         frontier.push(id);
@@ -384,7 +397,8 @@ impl<'a> Explorer<'a> {
                     if !self.seen.contains_key(&k[..]) {
                         let id = self.states.len() as u32;
                         let k: Arc<[u8]> = k.into();
-                        self.states.push(StateRec { parent, op: oi, root: self.states[parent as usize].root, depth: (depth + 1) as u16 });
+                        let rep = self.shapes.insert(crate::state::shape_of(&k));
+                        self.states.push(StateRec { parent, op: oi, root: self.states[parent as usize].root, depth: (depth + 1) as u16, shape_rep: rep });
                         self.keys.push(k.clone());
                         self.seen.insert(k, id);
                         next.push(id);
